@@ -91,6 +91,29 @@ def exhaustive_chunkings(rng, maxn, per):
     return out
 
 
+def dense_cases(rng, n):
+    """label layouts that drive find_group_cohorts into its containment-merging branch (sliding windows,
+    partially overlapping block sets): a cohort whose block list misses a block silently drops data"""
+    from tools.props.c09 import random_dense
+
+    out = []
+    for labels, chunks, ng, _merge in random_dense(rng, n):
+        m = len(labels)
+        func = rng.choice(["sum", "count", "nanmax", "mean", "min", "nanfirst"])
+        if rng.random() < 0.5:   # sliding windows: label g occupies blocks g..g+w
+            nb = len(chunks[0])
+            size = chunks[0][0]
+            w = rng.randint(2, 4)
+            labels = []
+            for b in range(nb):
+                pool = [g for g in range(ng) if g <= b <= g + w] or [rng.randrange(ng)]
+                labels += [rng.choice(pool) for _ in range(size)]
+        vals = [rng.choice(G.ALPHA_FINITE) for _ in range(m)]
+        out.append({"func": func, "vals": vals, "labels": labels, "chunks": [list(chunks[0])], "method": rng.choice(["cohorts", None]),
+                    "engine": "numpy", "expected": list(range(ng)), "fill_value": -7, "reindex": None, "split_every": rng.choice([None, 2])})
+    return out
+
+
 def nontrivial(case):
     sizes = case["chunks"][0]
     if len(sizes) < 2:
@@ -113,9 +136,11 @@ def run(run: C.Run):
     if thorough:
         cases += exhaustive_chunkings(rng, 7, 2)
         cases += gen_cases(rng, 6000)
+        cases += dense_cases(rng, 3000)
     else:
         cases += exhaustive_chunkings(rng, 5, 1)
-        cases += gen_cases(rng, 1500)
+        cases += gen_cases(rng, 1300)
+        cases += dense_cases(rng, 400)
     R.check_reduce_cases(run, cases, "C02", nontrivial, grouped_fn=grouped_fn, vs_eager=True)
     if not proofs_ok and not run.violations:
         run.violation({"property": "C02", "kind": "proof obligation no longer checks",
